@@ -4,10 +4,21 @@
 mechanism predicate implemented here (by id).  A monitor failure whose witness matches an open
 predicate of the same property is reported as KNOWN-FINDING and does not fail the check; anything
 else is a VIOLATION.  `fixed` entries suppress nothing.
+
+F4 (countmin._find_base): the predicate re-runs a pure-Python model of the *defective mechanism* - the
+fixed 200-step Newton iteration with the wrong derivative and the `base < 1.000000001` acceptance test
+- on the witness configuration.  The witness is the known finding only if
+  (1) the failed clause is about the decoding of the log ceiling,
+  (2) the base the real sketch exposes equals what the defective mechanism yields for that
+      configuration (so the failure is explained by it and by nothing else), and
+  (3) that base is *not* the root of the defining equation (or no root > 1 exists).
+A wrong ceiling with a converged base, a base that differs from the model's, or a configuration the
+model rejects but the constructor accepted, is a new VIOLATION.
 """
 from __future__ import annotations
 
 import json
+import math
 import os
 
 _HERE = os.path.dirname(os.path.dirname(os.path.abspath(__file__)))
@@ -22,48 +33,95 @@ def load():
     return _CACHE
 
 
-def _uint_max(kind):
+def uint_max_of(kind):
     return 255 if kind == "log8" else 65535
 
 
-def _f4_region(cfg):
-    """Configurations in which _find_base's damped Newton iteration has not converged after its
-    fixed 200 steps, or for which no base > 1 exists at all but the constructor accepts them."""
-    if not cfg:
+def pinned_find_base(max_count, num_reserved, uint_max):
+    """Model of the defective mechanism: returns ("ValueError", None) or ("accepted", base)."""
+    M = float(max_count) - float(num_reserved)
+    K = uint_max - num_reserved
+    try:
+        base = math.exp(math.log(max_count) / K)
+        for _ in range(200):
+            f = base ** K - M * base + (M - 1.0)
+            fp = uint_max * base ** K - M
+            base = base - f / fp
+    except (OverflowError, ZeroDivisionError, ValueError):
+        return ("error", None)
+    if base != base:  # nan
+        return ("accepted", base)
+    if base < 1.000000001:
+        return ("ValueError", None)
+    return ("accepted", base)
+
+
+def true_base(max_count, num_reserved, uint_max):
+    """Root > 1 of (b^K - 1)/(b - 1) = max_count - num_reserved by bisection, or None if there is none."""
+    M = float(max_count) - float(num_reserved)
+    K = uint_max - num_reserved
+    if K < 1 or M <= K:
+        return None
+
+    def g(b):
+        try:
+            return (b ** K - 1.0) / (b - 1.0) - M
+        except OverflowError:
+            return float("inf")
+
+    lo, hi = 1.0 + 1e-15, 2.0
+    while g(hi) < 0:
+        hi *= 2
+        if hi > 1e300:
+            return None
+    if g(lo) > 0:
+        return None
+    for _ in range(300):
+        mid = 0.5 * (lo + hi)
+        if g(mid) > 0:
+            hi = mid
+        else:
+            lo = mid
+    return 0.5 * (lo + hi)
+
+
+def decoded_ceiling(base, num_reserved, uint_max):
+    K = uint_max - num_reserved
+    return (base ** float(K) - 1.0) / (base - 1.0) + float(num_reserved)
+
+
+_F4_CLAUSES = {"log-ceiling-decodes-to-max_count", "log-ceiling-reached-and-sticks"}
+
+
+def f4_matches(cfg, observed_base):
+    if not cfg or cfg.get("kind") not in ("log8", "log16") or observed_base is None:
         return False
-    kind = cfg.get("kind")
-    if kind not in ("log8", "log16"):
+    um = uint_max_of(cfg["kind"])
+    mc, nr = int(cfg["max_count"]), int(cfg["num_reserved"])
+    outcome, model_base = pinned_find_base(mc, nr, um)
+    if outcome != "accepted" or model_base is None or model_base != model_base:
         return False
-    um = _uint_max(kind)
-    nr = int(cfg.get("num_reserved", -1))
-    mc = int(cfg.get("max_count", 0))
-    if nr < 0:
-        return False
-    span = um - nr  # number of log steps available
-    # (a) no solution with base > 1: max_count - num_reserved <= span  (sum of `span` ones)
-    if mc - nr <= span:
+    ob = float(observed_base)
+    root = true_base(mc, nr, um)
+    # the iteration is ill-conditioned when no root > 1 exists (base - 1 ~ 1e-7): libm/LLVM pow may differ by ulps
+    tol = (1e-3 if root is None else 1e-8) * abs(model_base - 1.0) + 1e-15
+    if not abs(ob - model_base) <= tol:
+        return False  # the sketch's base is not what the known-defective iteration produces
+    if root is None:
+        return True  # unsolvable configuration accepted by the defective acceptance test
+    try:
+        ceil_model = decoded_ceiling(model_base, nr, um)
+    except OverflowError:
         return True
-    # (b) heavily damped region: few log steps relative to the counter range
-    return nr > 0.6 * um
-
-
-_F4_CLAUSES = {
-    "ceiling-decodes-to-max_count",
-    "ctor-accepts-unsolvable",
-    "merge-log-nearest",
-    "merge-log-saturates",
-    "log-ceiling-sticks",
-    "log-estimate-monotone",
-}
+    return abs(ceil_model - mc) > 1e-8 * mc  # not converged: explains a wrong ceiling
 
 
 def classify(prop, clause, detail, case):
     for ent in load().get("open", []):
         if prop not in ent.get("properties", [ent.get("property")]):
             continue
-        pid = ent["predicate"]
-        if pid == "F4":
+        if ent["predicate"] == "F4":
             cfg = (detail or {}).get("cfg") or ((case or {}).get("cfg") if isinstance(case, dict) else None)
-            if clause in _F4_CLAUSES and _f4_region(cfg):
+            if clause in _F4_CLAUSES and f4_matches(cfg, (detail or {}).get("base")):
                 return {"id": ent["id"], "what": ent["what"]}
     return None
